@@ -209,6 +209,16 @@ class Interp:
         globs = fn.__globals__
         defaults = list(fn.__defaults__ or ())
         kwdefaults = dict(fn.__kwdefaults__ or {})
+        # modelled module state (C19): reg.global_overrides = {module name: {global name: value}} replaces module
+        # globals (and default-argument values that ARE those globals) by explicit symbolic state
+        ov = getattr(self.reg, "global_overrides", {}).get(getattr(fn, "__module__", None))
+        if ov:
+            import collections
+
+            real_ids = {id(globs[k]): v for k, v in ov.items() if k in globs and isinstance(globs[k], (dict, list))}
+            defaults = [real_ids.get(id(d), d) for d in defaults]
+            kwdefaults = {k: real_ids.get(id(d), d) for k, d in kwdefaults.items()}
+            globs = collections.ChainMap(dict(ov), globs)
         c = Closure(node, None, self, globs, name=fn.__qualname__, defaults=defaults, kwdefaults=kwdefaults, real=fn)
         # real closures: bind free variables
         if fn.__closure__:
@@ -452,6 +462,9 @@ class Interp:
 
     def x_Raise(self, node, env):
         if node.exc is None:
+            cur_exc = getattr(self, "_handling", None)
+            if cur_exc:
+                raise RaiseSig(cur_exc[-1])  # bare `raise` inside an except block re-raises the handled exception
             raise OutOfSubset("bare raise")
         exc = self.eval_exc(node.exc, env)
         raise RaiseSig(exc)
@@ -555,7 +568,13 @@ class Interp:
                     if match:
                         if h.name:
                             env.assign(h.name, r.exc)
-                        self.exec_block(h.body, env)
+                        if not hasattr(self, "_handling"):
+                            self._handling = []
+                        self._handling.append(r.exc)
+                        try:
+                            self.exec_block(h.body, env)
+                        finally:
+                            self._handling.pop()
                         break
                 else:
                     raise
@@ -873,6 +892,9 @@ class Interp:
                 d.update(self.eval(v, env))
             else:
                 d[self.eval(k, env)] = self.eval(v, env)
+        df = getattr(self.reg, "dict_factory", None)
+        if df is not None:  # a property may model dict displays by its own map value (C19: symbolic nested maps)
+            return df(self, d)
         return d
 
     def e_JoinedStr(self, node, env):
@@ -887,6 +909,12 @@ class Interp:
                 elif v.conversion == ord("s"):
                     x = str(x)
                 spec = self.eval(v.format_spec, env) if v.format_spec is not None else ""
+                fm = getattr(self.reg, "format_model", None)
+                if fm is not None and contains_sym(x):
+                    r = fm(self, x, spec)
+                    if r is not NotImplemented:
+                        parts.append(r)
+                        continue
                 if isinstance(x, Sym) and z3.is_string(x.t):
                     from .strings import sconcat
 
